@@ -1018,6 +1018,58 @@ def m_str(ex, st, fr, path, args, m):
     return NotImplemented
 
 
+@model(r"^(?:std|core|alloc)::str::<impl str>::(to_lowercase|to_uppercase|to_ascii_lowercase|to_ascii_uppercase)$")
+def m_str_case(ex, st, fr, path, args, m):
+    """ASCII only (Unicode case mapping is not modelled: a non-ASCII byte makes the obligation unsupported)"""
+    el, lo, hi = seq_of(args[0])
+    lower = "lower" in m.group(1)
+    out = []
+    for b in el[lo:hi]:
+        if not ex.decide(st, binop("Lt", b, I("u8", 128))):
+            raise Unsupported("str case mapping of non-ASCII bytes (Unicode tables are not modelled)")
+        a, z = (0x41, 0x5a) if lower else (0x61, 0x7a)
+        if ex.decide(st, band(binop("Ge", b, I("u8", a)), binop("Le", b, I("u8", z)))):
+            out.append(binop("BitXor", b, I("u8", 0x20)))
+        else:
+            out.append(b)
+    return VecObj(out, "u8", is_str=True)
+
+
+@model(r"^(?:std::string::|alloc::string::)?String::retain::<")
+def m_string_retain(ex, st, fr, path, args, m):
+    v = vec_of(args[0])
+    keep = []
+    for b in list(v.elems):
+        if not ex.decide(st, binop("Lt", b, I("u8", 128))):
+            raise Unsupported("String::retain over non-ASCII bytes (UTF-8 decoding is not modelled)")
+        r = ex.call_closure(st, fr, args[1], [cast_int(b, "char")])
+        if ex.decide(st, r):
+            keep.append(b)
+    v.elems[:] = keep
+    return UNIT
+
+
+@model(r"^core::str::<impl str>::(trim_start_matches|trim_end_matches)::<\[char; (\d+)\]>$")
+def m_trim_matches(ex, st, fr, path, args, m):
+    el, lo, hi = seq_of(args[0])
+    pat = args[1]
+    chars = list(pat.fields) if isinstance(pat, Agg) else list(seq_of(pat)[0])
+
+    def hit(b):
+        return any(ex.decide(st, binop("Eq", cast_int(b, "char"), c)) for c in chars)
+    r = args[0]
+    base = r.window[0] if isinstance(r, Ref) and r.window else 0
+    if m.group(1) == "trim_start_matches":
+        while lo < hi and hit(el[lo]):
+            lo += 1
+    else:
+        while hi > lo and hit(el[hi - 1]):
+            hi -= 1
+    sr = slice_ref(r)
+    off = sr.window[0] - (seq_of(sr)[1])
+    return Ref(sr.cell, sr.path, (lo, hi), True, False)
+
+
 @model(r"^(?:(core|std)::str::(?:<impl str>::)?)?(from_utf8_unchecked|from_utf8)$|^(core|std)::str::converts::(from_utf8_unchecked|from_utf8)$")
 def m_from_utf8(ex, st, fr, path, args, m):
     r = args[0]
@@ -2016,7 +2068,7 @@ def m_sort_by(ex, st, fr, path, args, m):
     return UNIT
 
 
-@model(r"^(?:core::char::methods::<impl char>|char::methods::<impl char>|char)::(is_alphanumeric|is_lowercase|is_uppercase|is_alphabetic|is_numeric|is_ascii_digit|is_ascii_hexdigit|is_whitespace)$")
+@model(r"^(?:core::char::methods::<impl char>|char::methods::<impl char>|char)::(is_alphanumeric|is_lowercase|is_uppercase|is_alphabetic|is_numeric|is_ascii_digit|is_ascii_hexdigit|is_whitespace|is_ascii_alphanumeric|is_ascii_alphabetic|is_ascii_lowercase|is_ascii_uppercase)$")
 def m_char_class(ex, st, fr, path, args, m):
     c = args[0]
     if isinstance(c, Ref):      # is_ascii_* take &self
@@ -2029,8 +2081,14 @@ def m_char_class(ex, st, fr, path, args, m):
     def bor2(*xs):
         return bnot(band(*[bnot(x) for x in xs]))
     lower, upper, digit = rng("a", "z"), rng("A", "Z"), rng("0", "9")
-    if op == "is_alphanumeric":
+    if op in ("is_alphanumeric", "is_ascii_alphanumeric"):
         return bor2(lower, upper, digit)
+    if op == "is_ascii_alphabetic":
+        return bor2(lower, upper)
+    if op == "is_ascii_lowercase":
+        return lower
+    if op == "is_ascii_uppercase":
+        return upper
     if op == "is_alphabetic":
         return bor2(lower, upper)
     if op == "is_lowercase":
